@@ -96,6 +96,13 @@ func TestC19_MAP(t *testing.T) {
 		if v := checkLines(string(b)); v != nil {
 			return v
 		}
+		// a result stays what it is while other maps are marshalled (the next download, another goroutine)
+		snapshot := string(b)
+		p.Marshal(map[string]interface{}{"username": "somebody else", "zz other setting": 7, "audiomode": 2})
+		p.Marshal(map[string]interface{}{})
+		if string(b) != snapshot {
+			return viol("c19/marshal-result-changed", "the bytes Marshal returned changed when another map was marshalled afterwards:\n before: %q\n after:  %q", shorten(snapshot), shorten(string(b)))
+		}
 		back, err := p.Unmarshal(b)
 		if err != nil {
 			return viol("c19/roundtrip-error", "parse(marshal(m)) failed: %v", err)
